@@ -46,6 +46,7 @@ class Idx:
     small: bool = True  # value known to stay in 0..9 (usable as subview offset / size)
     positive: bool = False  # value known to be >= 1
     iv_ub: object = None  # for induction variables: ("c", k) constant ub, ("a", argname) dynamic ub, else None
+    is_min: bool = False  # result of an affine.min
 
 
 @dataclass
@@ -64,6 +65,9 @@ class _G:
         self.features: set = set()
         self.dyn_used: set = set()
         self.skel: list = []
+        # affine.min values become subview sizes (the boundary-tile pattern) only in a minority of the programs: on the
+        # unchanged tree that pattern runs into a known finding of MoveMemrefDims which would hide everything else
+        self.min_sized_subviews = rng.random() < 0.3
 
     # -- names -------------------------------------------------------------------------------
     def fresh(self, p):
@@ -79,8 +83,8 @@ class _G:
         return f"%c{k}"
 
     # -- pieces ------------------------------------------------------------------------------
-    def pick_idx(self, scope, small=False, positive=False):
-        c = [x for x in scope["idx"] if (x.small or not small) and (x.positive or not positive)]
+    def pick_idx(self, scope, small=False, positive=False, no_min=False):
+        c = [x for x in scope["idx"] if (x.small or not small) and (x.positive or not positive) and not (no_min and x.is_min)]
         if not c or self.r.random() < 0.15:
             k = self.r.randrange(1, 5) if positive else self.r.randrange(0, 5)
             return Idx(self.cst(k), True, k >= 1)
@@ -137,13 +141,13 @@ class _G:
                 line = f'{ind}{v} = "affine.min"({iv.name}, %{ub}) <{{map = {m}}}> : (index, index) -> index'
                 self.dyn_used.add(ub)
             self.features.add("affine-min-iv")
-            scope["idx"].append(Idx(v, True, True))
+            scope["idx"].append(Idx(v, True, True, None, True))
         else:
             a = self.pick_idx(scope, small=True)
             m = f"affine_map<(d0) -> ({tile}, d0 + 1)>"
             line = f'{ind}{v} = "affine.min"({a.name}) <{{map = {m}}}> : (index) -> index'
             self.features.add("affine-min-other")
-            scope["idx"].append(Idx(v, True, True))
+            scope["idx"].append(Idx(v, True, True, None, True))
         self.skel.append("mn")
         return [line], scope["idx"][-1]
 
@@ -174,7 +178,9 @@ class _G:
                 size_vals.append(s)
                 tdims.append(str(s))
             else:
-                s = self.pick_idx(scope, small=True, positive=True)
+                s = self.pick_idx(scope, small=True, positive=True, no_min=not self.min_sized_subviews)
+                if s.is_min:
+                    self.features.add("subview-sized-by-affine-min")
                 sizes.append(s.name)
                 size_vals.append(s.name)
                 tdims.append("?")
@@ -223,9 +229,13 @@ class _G:
         r = self.r
         out = []
         hint = None
-        if r.random() < 0.7:
+        if r.random() < 0.5:
             ls, hint = self.affine_min(scope, ind)
             out += ls
+            if self.min_sized_subviews:
+                self.features.add("subview-sized-by-affine-min")
+            else:
+                hint = None
         ls, sv = self.subview(scope, ind, size_hint=hint)
         out += ls
         if r.random() < 0.5:
@@ -257,9 +267,28 @@ class _G:
             out.append(f'{ind}"memref.copy"({sv.name}, {buf.name}) {{verif.id = "{self.vid("cp")}"}} : ({sv.type}, {buf.type}) -> ()')
             self.features.add("copy-subview-to-alloc")
             self.skel.append("cp")
+        if same_static and r.random() < 0.3:
+            out += self.kernel(ind, sv, buf)
         out += self.marker(scope, ind, [buf])
         self.features.add("tile-pattern")
         return out
+
+    def kernel(self, ind, src, dst):
+        """linalg.generic src -> dst (elementwise); its body holds a local constant (hoistable out of two regions)."""
+        x, y, k, z = self.fresh("x"), self.fresh("y"), self.fresh("kk"), self.fresh("z")
+        ident = "affine_map<(d0, d1) -> (d0, d1)>"
+        par = "#linalg.iterator_type<parallel>"
+        self.features.add("linalg.generic-in-loop")
+        self.skel.append("g")
+        return [
+            f'{ind}"linalg.generic"({src.name}, {dst.name}) <{{indexing_maps = [{ident}, {ident}], iterator_types = [{par}, {par}], '
+            f"operandSegmentSizes = array<i32: 1, 1>}}> ({{",
+            f"{ind}^bb0({x} : i32, {y} : i32):",
+            f"{ind}  {k} = arith.constant {self.r.randrange(1, 9)} : i32",
+            f"{ind}  {z} = arith.addi {x}, {k} : i32",
+            f'{ind}  "linalg.yield"({z}) : (i32) -> ()',
+            f'{ind}}}) {{verif.id = "{self.vid("g")}"}} : ({src.type}, {dst.type}) -> ()',
+        ]
 
     def plain_alloc(self, scope, ind):
         r = self.r
